@@ -16,6 +16,17 @@ from hypothesis import strategies as st
 from . import tg, cg
 from .codec import MySeq, MyMap
 
+def _np() -> t.Any:
+    import numpy
+    return numpy
+
+
+# numpy arrays are declared interchange data; `array == x` and `array in (...)` do not give a bool
+_ARRAYS: t.Dict[str, t.Callable[[], t.Any]] = {
+    'arr-int': lambda: _np().array([1, 2]), 'arr-str': lambda: _np().array(['a', 'x']), 'arr-0d': lambda: _np().array(1),
+    'arr-empty': lambda: _np().array([]), 'arr-2d': lambda: _np().array([[1, 0], [0, 1]]),
+}
+
 ADVERSARIAL = ['1/0', 'a{4294967296}', '(', 'NaN', '2023-13-45', '\x00', 'x' * 40, '١٢٣', ' ', '0' * 30, '+', '1e999', '--1']
 WRONG_KIND = st.one_of(
     tg.scalars,
@@ -23,6 +34,7 @@ WRONG_KIND = st.one_of(
     st.sampled_from([10**400, -10**400, 2**64]),
     st.just([]), st.just({}), st.just(()), st.just([5]), st.just({'0': 5}), st.just([[]]), st.just({'tag': [1]}),
     st.just(MySeq()), st.just(MyMap()), st.just(range(2)),
+    st.sampled_from(['arr-int', 'arr-str', 'arr-0d', 'arr-empty', 'arr-2d']).map(lambda k: _ARRAYS[k]()),
 )
 
 
@@ -98,9 +110,11 @@ def mutate(draw: t.Any, v: t.Any, names: t.Sequence[str], depth: int = 0) -> t.A
         (k, x) = pairs[i]
         pairs[i] = (k, mutate(draw, x, names, depth + 1))
         return _rebuild_map(v, pairs)
-    ops = ['replace', 'replace']
+    ops = ['replace', 'replace', 'array']
     if seq:
         ops += ['drop', 'dup', 'append', 'to_str', 'to_map', 'reshape']
+        if len(v) > 0 and all(type(x) in (int, float, bool) for x in v):
+            ops += ['to_array']
     twins: t.List[t.Tuple[str, str]] = []
     if mp:
         twins = [(k, alt) for k in v if isinstance(k, str) for g in getattr(names, 'groups', ()) if k in g for alt in g if alt != k and alt not in v]
@@ -121,6 +135,8 @@ def mutate(draw: t.Any, v: t.Any, names: t.Sequence[str], depth: int = 0) -> t.A
     op = draw(st.sampled_from(ops))
     if op == 'replace':
         return draw(WRONG_KIND)
+    if op == 'array':
+        return _ARRAYS[draw(st.sampled_from(sorted(_ARRAYS)))]()
     if op == 'drop':
         items = list(v)
         if items:
@@ -134,6 +150,10 @@ def mutate(draw: t.Any, v: t.Any, names: t.Sequence[str], depth: int = 0) -> t.A
         return _rebuild_seq(v, items)
     if op == 'append':
         return _rebuild_seq(v, [*v, draw(tg.scalars)])
+    if op == 'to_array':
+        # numpy arrays are declared interchange data; comparing one with == does not give a bool
+        import numpy
+        return numpy.array(list(v))
     if op == 'to_str':
         return draw(st.sampled_from(['', 'xy', 'ab'])) if draw(st.booleans()) else draw(st.sampled_from([b'', b'xy', bytearray(b'ab')]))
     if op == 'to_map':
